@@ -217,8 +217,13 @@ class BaseParser:
     @property
     def globals(self):
         if hasattr(self.obj, "__globals__"):
-            # like a function
-            return self.obj.__globals__
+            # like a function. the annotations of a wrapper (functools.wraps) are those of the function it wraps:
+            # their names are those of that function's module (inspect.signature and typing follow __wrapped__ too)
+            try:
+                obj = inspect.unwrap(self.obj)
+            except ValueError:
+                obj = self.obj
+            return getattr(obj, "__globals__", None) or self.obj.__globals__
         return sys.modules[self.module_name].__dict__
 
     def __getitem__(self, item):
